@@ -86,7 +86,7 @@ Lemma FF_ensure p : FF (ensure_parent_directories p).
 Proof. unfold ensure_parent_directories. pose proof FF_mkdirs. ff. Qed.
 
 Lemma FF_backup o st p : FF (make_backup_for o st p).
-Proof. unfold make_backup_for. ff. Qed.
+Proof. unfold make_backup_for, backup_core. pose proof FF_ensure. ff. Qed.
 
 Lemma FF_write_now o st d : FF (write_now o st d).
 Proof. unfold write_now. pose proof FF_backup. ff. Qed.
